@@ -313,6 +313,7 @@ def eval_cases(run, name, terms, width, chunk=120):
 
 def judge(run, prefix, cases, outs, results, labels, spec_labels, model_labels, shrink=None):
     """turn per-case boolean vectors into findings"""
+    nshrunk = [0]
     for case, out, bs in zip(cases, outs, results):
         key = case_key(prefix, case)
         if bs is None:
@@ -322,7 +323,8 @@ def judge(run, prefix, cases, outs, results, labels, spec_labels, model_labels, 
         bad_spec = [l for l in spec_labels if not d[l]]
         bad_model = [l for l in model_labels if not d[l]]
         if bad_spec:
-            small = shrink(case) if shrink else None
+            nshrunk[0] += 1
+            small = shrink(case) if (shrink and nshrunk[0] <= 3) else None
             rep = small or case
             run.find(case_key(prefix, rep), f"implementation contradicts the Coq spec ({', '.join(bad_spec)})",
                      {"case": rep, "observed": out if rep is case else None, "failed": bad_spec})
